@@ -448,7 +448,11 @@ inline int exerciseMutant(const std::string& m, bool fileRoute, bool preserve, c
         return 0;   // parsed
     } catch (const std::exception&) { return 1; }   // rejected with an exception: the documented outcome
 }
+// Every sanitizer abort costs seconds (symbolisation); once the parser has been shown to crash a few times in this worker the
+// remaining mutant cases add nothing and are skipped (counted as inconclusive, never as passes).
+static int g_crashBudget = 6;
 inline void xmlMutants(vh::Ctx& c, long idx, vh::Rng& r) {
+    if (g_crashBudget <= 0) { c.skip("crash-budget-exhausted:parser-already-shown-to-crash"); return; }
     const bool preserve = r.coin(0.25);
     GenOpt go{preserve, r.coin(0.1), true, true};
     MDoc d = randDoc(r, go), d2 = randDoc(r, go);
@@ -501,6 +505,7 @@ inline void xmlMutants(vh::Ctx& c, long idx, vh::Rng& r) {
                    .set("mutation", hows[crashed]).set("white_space_mode", preserve ? "preserve" : "condense").set("wait_status", status)
                    .set("signal", WIFSIGNALED(status) ? WTERMSIG(status) : 0).set("document_json", shown).set("document_length", (long)muts[crashed].size()));
         next = crashed + 1;
+        if (--g_crashBudget <= 0) { c.obs("mutants-not-run-after-crash-budget", NM - next); break; }
     }
     unlink(path.c_str());
     (void)idx;
